@@ -219,6 +219,55 @@ def inproc(ctx):
         fincases.append({"cfg": cfg, "evs": evs, "pg": r1, "cyg": r2})
         ctx.case(key=("finish", repr(cfg), tuple(evs)), tags=["finish-trigger"] +
                  sorted({"fin:" + k for t in cfg["trig"].values() for k in t}), size=len(evs))
+    # option LISTS (utils/filter.c setup_trigger / update_trigger and the counts): several options may hit the same function,
+    # a later one overrides an earlier one action by action, patterns may match several functions; the trigger table and
+    # filter_count / caller_count come from the model (Mcount/Table.v cfg_of_opts).  Both shapes, same options + history.
+    optcases = []
+    for i in range(ctx.n(30, 300)):
+        pt = rng.choice(["regex", "regex", "glob", "simple"])
+        cfg = {"pattern": pt, "opts": []}
+
+        def some_ks():
+            if pt == "simple" or rng.random() < 0.4:
+                return [rng.randrange(6)]
+            return sorted(rng.sample(range(6), rng.randrange(2, 4)))
+        # UFTRACE_FILTER: -F / -N in command-line order
+        fopts = []
+        for _ in range(rng.randrange(1, 4)):
+            inc = rng.random() < 0.5
+            fopts.append({"kind": "F" if inc else "N", "ks": some_ks(), "acts": [("filter", inc)]})
+        # UFTRACE_TRIGGER
+        topts = []
+        for _ in range(rng.randrange(0, 3)):
+            acts = []
+            r = rng.random()
+            if r < 0.3:
+                acts.append(("filter", rng.random() < 0.5))
+            if rng.random() < 0.4:
+                acts.append(("depth", rng.choice([1, 2, 3])))
+            if rng.random() < 0.3:
+                acts.append(("time", rng.choice([0, 5, 100])))
+            if rng.random() < 0.2:
+                acts.append(("trace", True))
+            if rng.random() < 0.15:
+                acts.append((rng.choice(["trace_on", "trace_off"]), True))
+            if not acts:
+                acts.append(("depth", 2))
+            topts.append({"kind": "T", "ks": some_ks(), "acts": acts})
+        copts = [{"kind": "C", "ks": some_ks(), "acts": [("caller", True)]}] if rng.random() < 0.25 else []
+        cfg["opts"] = fopts + topts + copts
+        if rng.random() < 0.5:
+            cfg["depth"] = rng.choice([1, 2, 3, 4])
+        if rng.random() < 0.4:
+            cfg["threshold"] = rng.choice([1, 5, 10])
+        fo = F.assign_times(rng, F.gen_shape(rng, 6, rng.choice([4, 8, 16]), 5), durs=DURS)
+        evs = F.flatten(fo)
+        r1 = mcgen.run_case(h, dict(cfg, shape="pg"), evs)
+        r2 = mcgen.run_case(h, dict(cfg, shape="cyg"), evs)
+        optcases.append({"cfg": cfg, "evs": evs, "pg": r1, "cyg": r2})
+        overlap = len({k for o in cfg["opts"] for k in o["ks"]}) < sum(len(o["ks"]) for o in cfg["opts"])
+        ctx.case(key=("opts", repr(cfg), tuple(evs)), tags=["option-list", "opts:overlap=" + str(overlap), "opts:pattern=" + pt],
+                 size=len(evs))
     # ---- evaluate in Coq
     terms = [mcgen.case_term(c["cfg"], c["evs"], c["res"]) for c in cases]
     defs = "Definition cases : list case4 := [\n%s\n].\n" % ";\n".join(terms)
@@ -269,10 +318,13 @@ def inproc(ctx):
         "(%s, %s, %s, %s)" % (F.coq_cfg(dict(c["cfg"], shape=sh), mch.SIZES), F.coq_events(c["evs"]),
                               mcgen.coq_recs(c[sh]["recs"]), coq.coq_bool(sh == "pg"))
         for c in fincases for sh in ("pg", "cyg"))
+    defs += "Definition optcases : list case4 := [\n%s\n].\n" % ";\n".join(
+        mcgen.case_term(dict(c["cfg"], shape=sh), c["evs"], c[sh]) for c in optcases for sh in ("pg", "cyg"))
     res = coq.run_cases(ctx, "c05_cases", mcgen.PRE, defs, [
         ("sel", "bad_indices (fun b : bool => b) selchk 0"),
         ("sel2", "bad_indices (fun b : bool => b) sel2chk 0"),
         ("sel2z", "bad_indices (fun b : bool => b) sel2zchk 0"),
+        ("opts", "bad_indices agree4 optcases 0"),
         ("fin", "bad_indices (fun p : cfg * list ev * list seen5 * bool => let '(a, b, r, _) := p in ok_fin a b r) fincases 0"),
         ("finfired", "bad_indices (fun p : cfg * list ev * list seen5 * bool => let '(a, b, _, _) := p in negb (fin_fired a b)) "
                      "fincases 0"),
@@ -350,6 +402,22 @@ def inproc(ctx):
                       {"correspondence": "UV.Mcount.Model exec_f / finish_enter vs libmcount (-T f@finish)",
                        "cfg": c["cfg"], "env": mch.cfg_env(c["cfg"]), "events": c["evs"],
                        "pg_records": c["pg"]["recs"], "cyg_records": c["cyg"]["recs"]}, False)
+    optm = [j for j, c in enumerate(optcases) if c["pg"]["recs"] != c["cyg"]["recs"]]
+    for j in optm[:2]:
+        c = optcases[j]
+        ctx.violation("C05: with several options on the same functions the recorded trace depends on the instrumentation method",
+                      {"mode": "pair", "cfg": c["cfg"], "events": c["evs"], "pg_records": c["pg"]["recs"],
+                       "cyg_records": c["cyg"]["recs"], "env": mch.cfg_env(c["cfg"])}, True)
+    for j in R["opts"][:2]:
+        c = optcases[j // 2]
+        sh = ("pg", "cyg")[j % 2]
+        # the model computes the trigger table from the option list as documented (later options override, the opt-in
+        # mode is on iff an opt-in filter matched): a disagreement is a selection that differs from the documented one
+        ctx.violation("C05: the recorded selection differs from the documented meaning of the option list (trigger table / "
+                      "filter mode built by utils/filter.c vs Mcount/Table.v)",
+                      {"mode": "inproc", "cfg": dict(c["cfg"], shape=sh), "events": c["evs"],
+                       "impl_states": c[sh]["states"], "impl_records": c[sh]["recs"],
+                       "env": mch.cfg_env(c["cfg"])}, True)
     for j in R["method"][:2]:
         p = pairs[j]
         ctx.violation("C05: recorded trace depends on the instrumentation method",
@@ -496,7 +564,8 @@ def meta(ctx):
         "Coq 8.16.1 kernel incl. vm_compute; no axioms (Print Assumptions: closed)",
         "model coq/theories/Mcount/Model.v (mcount_entry_filter_check / _record, mcount_exit_filter_record, "
         "record_trace_data, both shapes); executable checkers coq/theories/Mcount/Check.v",
-        "mapping option strings -> trigger table in vf/mch.py cfg_env / vf/forest.py coq_cfg (one spec per function)",
+        "mapping option strings -> trigger table: modelled in Mcount/Table.v (option list -> table and counts) for the "
+        "option-list cases, vf/mch.py cfg_env spells the options; elsewhere one spec per function (vf/forest.py coq_cfg)",
         "harness/c/mc_harness.c, generated Gen/Consts.v",
     ]
     ctx.assume = [
@@ -518,7 +587,7 @@ def meta(ctx):
 
 def run(ctx):
     meta(ctx)
-    coq.prove(ctx, "C05", extra_files=["Mcount/Check"])
+    coq.prove(ctx, "C05", extra_files=["Mcount/Check", "Mcount/Table"])
     objdir = build.get_build("plain", ctx.log)
     inproc(ctx)
     known_leak(ctx)
@@ -527,7 +596,7 @@ def run(ctx):
 
 def replay(ctx, obj):
     meta(ctx)
-    coq.prove(ctx, "C05", extra_files=["Mcount/Check"])
+    coq.prove(ctx, "C05", extra_files=["Mcount/Check", "Mcount/Table"])
     if "events" not in obj or "cfg" not in obj:
         return run(ctx)
     h = mch.Harness(ctx)
